@@ -334,3 +334,12 @@ func vxCheckFrameVal(f QFrame, names []string, cols []vxCol, ix []uint32, label 
 		}
 	}
 }
+
+// vxClone copies a string obtained from a view: StringView/EnumView hand out strings that alias the
+// column's storage, and a snapshot that keeps them would change together with the storage (a harness
+// must never share memory with the code under test).
+func vxClone(s string) string {
+	b := make([]byte, len(s))
+	copy(b, s)
+	return string(b)
+}
